@@ -65,6 +65,22 @@ def h_roundtrip(ctx, n, twin=False):
     ctx.holds("unpack of a bytearray: view then pack reproduces the octets", e is None and sym_and(
         u2.to_space_packet().pack() == raw, u2.pack() == raw, u2 == t), exc_name(e))
     pack_hands_out_fresh_buffers(ctx, t.pack, refb)
+    # alternative constructor; a decoded packet equals a freshly built, never packed one
+    from spacepackets.ccsds.spacepacket import SpacePacketHeader, PacketType
+    alt = PusTc.from_sp_header(SpacePacketHeader(packet_type=PacketType.TC, apid=apid, seq_count=sc, data_len=0), svc, sub, data, src, ack)
+    ctx.holds("from_sp_header packs to the same octets", sym_and(alt.pack() == raw, alt.packet_len == total))
+    fresh = PusTc(svc, sub, apid, data, sc, src, ack)
+    ctx.holds("decoded == freshly constructed, never packed", sym_and(u == fresh, fresh == u))
+    # fields changed after a pack(): the space packet view follows them like pack() does
+    apid2, sc2 = ctx.int("apid2", 0, 2047), ctx.int("sc2", 0, 16383)
+    t3 = PusTc(svc, sub, apid, data, sc, src, ack)
+    t3.pack()
+    t3.apid = apid2
+    t3.seq_count = sc2
+    ref3, _ = ref_tc(ctx, svc, sub, apid2, sc2, src, ack, items_of(data))
+    ctx.holds("space packet view after apid/seq_count assignment == reference", t3.to_space_packet().pack() == ctx.bytes_of(ref3))
+    ctx.holds("pack after apid/seq_count assignment == reference", t3.pack() == ctx.bytes_of(ref3))
+    decoded_object_owns_its_data(ctx, PusTc.unpack, ref, lambda x: sym_and(x == t, x.app_data == data, x.pack() == raw))
     o1 = bytes(PusTc(255, 255, 0x7FF, b"\xaa" * 7, 0x3FFF, 0xFFFF, 0).pack())
     o2 = bytes(PusTc(0, 0, 0, b"").pack())
     earlier_result_survives(ctx, lambda: sym_and(u == t, u.service == svc, u.apid == apid, u.seq_count == sc, u.source_id == src,
